@@ -219,7 +219,7 @@ impl<'p> Interp<'p> {
 			syn::Expr::Break(_) => Err(Ctl::Break),
 			syn::Expr::Continue(_) => Err(Ctl::Continue),
 			syn::Expr::Try(t) => {
-				let v = self.eval(&t.expr)?;
+				let v = self.eval_hint(&t.expr, hint)?;
 				let v = self.force(v)?;
 				match v {
 					V::Enum(n, var, p) => match (&*n, &*var) {
@@ -527,7 +527,7 @@ impl<'p> Interp<'p> {
 			if let Some(c) = self.lookup(name) {
 				return Ok(self.read(&c));
 			}
-			if let Some((ty, e)) = self.prog.consts.get(name).cloned() {
+			if let Some((ty, e)) = self.find_const(name) {
 				let v = self.eval_const(&e, &ty, None)?;
 				return Ok(v);
 			}
@@ -607,7 +607,7 @@ impl<'p> Interp<'p> {
 	}
 
 	fn eval_const(&mut self, e: &syn::Expr, ty: &syn::Type, self_ty: Option<String>) -> R<V> {
-		self.frames.push(Frame { scopes: vec![HashMap::new()], self_ty, tparams: HashMap::new(), ret_hint: None, fname: "<const>".into() });
+		self.frames.push(Frame { scopes: vec![HashMap::new()], self_ty, tparams: HashMap::new(), ret_hint: None, fname: "<const>".into(), file: self.cur_file() });
 		let r = self.eval_hint(e, Some(ty));
 		self.frames.pop();
 		let v = r?;
@@ -865,7 +865,7 @@ impl<'p> Interp<'p> {
 					if name == "None" {
 						return self.match_variant("Option", "None", &[], v);
 					}
-					if let Some((ty, e)) = self.prog.consts.get(&name).cloned() {
+					if let Some((ty, e)) = self.find_const(&name) {
 						let cv = self.eval_const(&e, &ty, None)?;
 						return self.match_value(&cv, v);
 					}
